@@ -298,6 +298,39 @@ def explicit_loop(ckind, val, clauses, mode, cond):
 # ---- stray exits ------------------------------------------------------------
 def stray_programs():
     progs = []
+    # a loop that is the LAST statement of a function and whose body ends in
+    # an unconditional return: the first iteration leaves the function
+    for itk, what in ((("list", [L(3), L(1), L(2)]), None),
+                      (("set", [L(30), L(10), L(20)]), None),
+                      (L("cab"), None),
+                      (("map", [(L(2), L("b")), (L(1), L("a"))]), "keys")):
+        progs.append(("seq", [
+            ("def", "firstof", ("fn", [("s", None, False)], ("seq", [
+                ("for", ["x"], what, V("s"),
+                 ("seq", [("log", V("x")), ("return", V("x"))]))])), True),
+            ("list", [("call", V("firstof"), [("pos", itk)]),
+                      ("call", V("firstof"), [("pos", itk)])])]))
+        progs.append(("seq", [
+            ("def", "firstof", ("fn", [("s", None, False)],
+                                ("for", ["x"], what, V("s"),
+                                 ("return", ("list", [V("x")])))), True),
+            ("call", V("firstof"), [("pos", itk)])]))
+    progs.append(("seq", [
+        ("def", "n", L(0)),
+        ("def", "upto", ("fn", [], ("seq", [
+            ("while", ("cmp", [V("n"), "<", L(5)]),
+             ("seq", [("assign", "n", ("bin", "+", V("n"), L(1))),
+                      ("log", V("n")),
+                      ("return", ("bin", "*", V("n"), L(100)))]))])), True),
+        ("list", [("call", V("upto"), []), V("n")])]))
+    progs.append(("seq", [
+        ("def", "pick", ("fn", [("s", None, False)], ("seq", [
+            ("for", ["x"], None, V("s"), ("seq", [
+                ("for", ["y"], None, ("list", [L(1), L(2)]),
+                 ("seq", [("log", ("list", [V("x"), V("y")])),
+                          ("return", ("list", [V("x"), V("y")]))]))]))])),
+         True),
+        ("call", V("pick"), [("pos", ("list", [L(7), L(8)]))])]))
     for ex in ("break", "continue"):
         progs.append(("seq", [("log", L("a")), (ex,), ("log", L("b"))]))
         progs.append(("seq", [
